@@ -1,15 +1,125 @@
-// one-off demonstration (pre-fix tree only): a Splice sent to another thread allocates in the arena there
+//! ThreadSanitizer part of C20: generated thread programs, each thread driving its own arena
+//! (including chunk-less arenas, zero-sized requests and hand-over of an arena between threads).
+//! Input: a file with one hex-encoded case per line. Every report TSan prints goes to stderr and is
+//! classified by the caller (harness/src/multi_eng.rs).
 use bumpalo::Bump;
-fn main() {
-    let b = Bump::new();
-    let mut v = bumpalo::vec![in &b; 1u32, 2, 3];
-    let n = std::hint::black_box(2000u32);
-    let sp = v.splice(0..1, (0..n).filter(|x| x % 2 == 0));
-    std::thread::scope(|s| {
-        s.spawn(move || drop(sp));
-        for i in 0..std::hint::black_box(2000u64) {
-            b.alloc(i);
+use std::alloc::Layout;
+use std::hint::black_box;
+use std::sync::{mpsc, Arc, Barrier};
+
+fn unhex(s: &str) -> Vec<u8> {
+    (0..s.len() / 2).map(|i| u8::from_str_radix(&s[2 * i..2 * i + 2], 16).unwrap_or(0)).collect()
+}
+
+fn drive<const M: usize>(cap: usize, ops: Vec<(u8, u8)>, bar: Arc<Barrier>, tx: Option<mpsc::Sender<Bump<M>>>, rx: Option<mpsc::Receiver<Bump<M>>>) -> u64 {
+    let mut b: Bump<M> = if cap == 0 { Bump::with_min_align() } else { Bump::with_min_align_and_capacity(cap) };
+    let mut sum = 0u64;
+    bar.wait();
+    for (code, arg) in ops {
+        match code % 7 {
+            0 | 1 => {
+                let l = Layout::from_size_align(black_box((arg % 64) as usize), black_box(1usize << (arg >> 6))).unwrap();
+                let p = b.alloc_layout(l);
+                if l.size() > 0 {
+                    unsafe { p.as_ptr().write(arg) };
+                }
+                sum += p.as_ptr() as usize as u64 & 1;
+            }
+            2 => {
+                let x = b.alloc(black_box(arg as u64));
+                sum += *x;
+            }
+            3 => b.reset(),
+            4 => {
+                // zero-sized request with a small alignment: an arena without a chunk stays without one
+                let l = Layout::from_size_align(black_box(0usize), black_box(1usize << (arg % 4).min(3))).unwrap();
+                let p = b.alloc_layout(l);
+                sum += p.as_ptr() as usize as u64 & 1;
+            }
+            5 => {
+                drop(b);
+                b = if arg & 1 == 0 { Bump::with_min_align() } else { Bump::with_min_align_and_capacity(arg as usize) };
+            }
+            _ => {
+                sum += b.allocated_bytes() as u64 + b.chunk_capacity() as u64;
+            }
         }
-    });
-    println!("len {}", v.len());
+    }
+    // hand-over: give the (idle) arena to the next thread, take one from the previous thread
+    match (tx, rx) {
+        (Some(tx), Some(rx)) => {
+            tx.send(b).unwrap();
+            let mut other = rx.recv().unwrap();
+            let x = other.alloc(black_box(7u32));
+            sum += *x as u64;
+            other.reset();
+            other.alloc_layout(Layout::from_size_align(black_box(0usize), black_box(1usize)).unwrap());
+            drop(other);
+        }
+        _ => drop(b),
+    }
+    sum
+}
+
+fn run_case(bytes: &[u8]) -> u64 {
+    let g = |i: usize| bytes.get(i).cloned().unwrap_or(0);
+    let k = 2 + (g(0) % 3) as usize;
+    let m_sel = g(1) % 3; // all threads of one case use the same MIN_ALIGN so that arenas can be handed over
+    let handover = g(2) & 1 == 1;
+    let mut per: Vec<Vec<(u8, u8)>> = vec![vec![]; k];
+    for ch in bytes.get(3 + k..).unwrap_or(&[]).chunks(3) {
+        let t = ch[0] as usize % k;
+        per[t].push((ch.get(1).cloned().unwrap_or(0), ch.get(2).cloned().unwrap_or(0)));
+    }
+    fn go<const M: usize>(k: usize, caps: Vec<usize>, per: Vec<Vec<(u8, u8)>>, handover: bool) -> u64 {
+        let bar = Arc::new(Barrier::new(k));
+        let mut txs: Vec<Option<mpsc::Sender<Bump<M>>>> = vec![];
+        let mut rxs: Vec<Option<mpsc::Receiver<Bump<M>>>> = vec![];
+        for _ in 0..k {
+            if handover {
+                let (tx, rx) = mpsc::channel();
+                txs.push(Some(tx));
+                rxs.push(Some(rx));
+            } else {
+                txs.push(None);
+                rxs.push(None);
+            }
+        }
+        // thread i sends to i+1 and receives from i-1
+        let mut handles = vec![];
+        let mut rxs_rot: Vec<Option<mpsc::Receiver<Bump<M>>>> = (0..k).map(|_| None).collect();
+        for i in 0..k {
+            rxs_rot[i] = rxs[i].take();
+        }
+        for (i, ops) in per.into_iter().enumerate() {
+            let tx = txs[(i + 1) % k].take();
+            let rx = rxs_rot[i].take();
+            let bar = bar.clone();
+            let cap = caps[i];
+            handles.push(std::thread::spawn(move || drive::<M>(cap, ops, bar, tx, rx)));
+        }
+        handles.into_iter().map(|h| h.join().unwrap()).sum()
+    }
+    let caps: Vec<usize> = (0..k).map(|i| if g(3 + i) & 1 == 0 { 0 } else { g(3 + i) as usize * 8 }).collect();
+    match m_sel {
+        0 => go::<1>(k, caps, per, handover),
+        1 => go::<8>(k, caps, per, handover),
+        _ => go::<16>(k, caps, per, handover),
+    }
+}
+
+fn main() {
+    let path = std::env::args().nth(1).expect("case file");
+    let text = std::fs::read_to_string(path).expect("readable case file");
+    let mut n = 0;
+    let mut sum = 0u64;
+    for line in text.lines() {
+        let bytes = unhex(line.trim());
+        if bytes.is_empty() {
+            continue;
+        }
+        sum = sum.wrapping_add(run_case(&bytes));
+        n += 1;
+    }
+    println!("TSAN-CASES {n} checksum {sum}");
 }
